@@ -37,6 +37,50 @@ MODULES = ["treewalkers/base.py", "treewalkers/etree.py", "treewalkers/dom.py", 
 CORE_KINDS = ["Doctype", "Characters", "SpaceCharacters", "StartTag", "EndTag", "EmptyTag", "Comment"]
 
 
+def _dom_attribute_keys_evaluated(ctx, f, rel, qual) -> bool:
+    """R11.3 attribute-keys, DOM walker, by evaluation: the loop that fills the attribute dict is run on three representative
+    minidom attribute nodes -- (namespace, local name, qualified name) -- and must produce the key the tree builder stored the
+    attribute under: (namespace, local name) for a namespaced attribute, (None, *whole* name) for one without namespace."""
+    from ..partition import MiniInterp, Opaque
+    r = ctx.r
+    loop = next((n for n in ast.walk(f.node) if isinstance(n, ast.For) and any(
+        isinstance(a, ast.Assign) and isinstance(a.targets[0], ast.Subscript) and isinstance(a.targets[0].value, ast.Name) for a in ast.walk(n))), None)
+    if loop is None:
+        return False
+    store = next(a for a in ast.walk(loop) if isinstance(a, ast.Assign) and isinstance(a.targets[0], ast.Subscript) and isinstance(a.targets[0].value, ast.Name))
+    dname = store.targets[0].value.id
+    var = norm(loop.target)
+    reps = (("http://www.w3.org/1999/xlink", "href", "xlink:href", "xlink"), (None, "lang", "xml:lang", None), (None, "title", "title", None))
+    results = []
+    for ns, local, qname, prefix in reps:
+        fields = {"namespaceURI": ns, "localName": local, "name": qname, "nodeName": qname, "value": "v", "nodeValue": "v", "prefix": prefix}
+
+        def hook(node, local_env, fields=fields):
+            if isinstance(node, ast.Attribute) and isinstance(node.value, ast.Name) and node.value.id == var and node.attr in fields and \
+                    isinstance((local_env or {}).get(var), Opaque):
+                return fields[node.attr]
+            if isinstance(node, ast.Call) and norm(node.func).endswith((".getAttributeNode", ".getAttributeNodeNS", ".item")):
+                return Opaque("attr-node")
+            return NotImplemented
+        init = ast.parse("%s = {}" % dname).body
+        try:
+            res = MiniInterp(ctx.ce, f.module, expr_hook=hook).run(init + loop.body, {var: Opaque("attr-node"), "node": Opaque("node"), "self": Opaque("self")})
+        except AnalysisError:
+            return False
+        got = res.env.get(dname)
+        if not isinstance(got, dict) or res.effects:
+            return False
+        results.append(((ns, local, qname), got, {(ns, local) if ns else (None, qname): "v"}))
+    bad = [(rep, got, want) for rep, got, want in results if got != want]
+    r.check("R11.3", not bad, "%s::attribute-keys" % rel, f.where,
+            "%s reports the attribute %s as %s; the tree holds it as %s: an attribute without namespace whose name contains a colon "
+            "(xml:lang on an HTML element, v-bind:title) must keep its whole name, a namespaced one is keyed by (namespace, local name) -- "
+            "otherwise the stream no longer reproduces the tree and differs from the other walker's" % (
+                qual, bad[0][0] if bad else "", sorted(bad[0][1]) if bad else "", sorted(bad[0][2]) if bad else ""),
+            detail={"evaluated": [list(map(str, rep)) for rep, _, _ in results]})
+    return True
+
+
 def run(ctx):
     r = ctx.r
     ce, repo = ctx.ce, ctx.repo
@@ -183,6 +227,8 @@ def run(ctx):
                                 detail={"name_expr": nm})
         need = {"DOCTYPE", "TEXT", "ELEMENT", "COMMENT", "DOCUMENT"}
         r.check("R11.3", need <= kinds_seen, "%s::kinds" % rel, f.where, "%s does not report node kinds %s" % (qual, sorted(need - kinds_seen)))
+        if rel.endswith("dom.py") and _dom_attribute_keys_evaluated(ctx, f, rel, qual):
+            continue
         keys = [n.targets[0].slice for n in ast.walk(f.node) if isinstance(n, ast.Assign) and isinstance(n.targets[0], ast.Subscript)
                 and norm(n.targets[0].value) == "attrs"]
         shape_ok = len(keys) >= 1 and all(isinstance(k, ast.Tuple) and len(k.elts) == 2 for k in keys)
